@@ -132,7 +132,8 @@ class RoundTripStream(Stream):
     shard = 120
     rule = ('policies with nested compositions, tuples, sets of hashables, regex rules, Unicode text and the same '
             'rule instance used in several places, written and read back through JSON text, pickle, SQL rows '
-            '(SQLite), Mongo documents and Redis values (client doubles, both serializers), and JSON text holding the rules '
+            '(SQLite), Mongo documents and Redis values (client doubles, both serializers), element collections given '
+            'as lists or as tuples, and JSON text holding the rules '
             'with the state of their arguments as given (what stored documents carry); the reloaded policy is '
             'probed with 3-5 inquiries derived from it (one matching, one-point mutations) under all four '
             'checkers and compared with the model\'s verdicts for the original policy, together with uid, effect, '
@@ -204,7 +205,9 @@ class RoundTripStream(Stream):
                     v = specs.py(q[f])
                     q[f] = specs.jv(gen.related(rng, v)) if rng.random() < 0.7 else specs.jv(gen.word(rng))
                 probes.append(q)
-            yield {'path': path, 'policy': p, 'probes': probes, 'rxtable': sc['rxtable'], 'shared': rng.random() < 0.5}
+            tuples = [f for f in ('subjects', 'resources', 'actions') if rng.random() < 0.35]
+            yield {'path': path, 'policy': p, 'probes': probes, 'rxtable': sc['rxtable'], 'shared': rng.random() < 0.5,
+                   'tuples': tuples}
 
     def emit(self, c):
         return '{| pc_table := %s; pc_pol := %s; pc_probes := %s |}' % (
@@ -212,7 +215,10 @@ class RoundTripStream(Stream):
             e_list([specs.e_inquiry(q) for q in c['probes']], 'inquiry'))
 
     def _orig(self, c):
-        return mk_policy_shared(c['policy']) if c.get('shared') else specs.mk_policy(c['policy'])
+        pol = mk_policy_shared(c['policy']) if c.get('shared') else specs.mk_policy(c['policy'])
+        for f in c.get('tuples', ()):
+            setattr(pol, f, tuple(getattr(pol, f)))       # element collections given as tuples (the default is `()`)
+        return pol
 
     def impl(self, c):
         pol = self._orig(c)
